@@ -294,11 +294,13 @@ def _(c):
 # bounded: every public date-consuming operation x labels
 # ---------------------------------------------------------------------------------------------
 
-OPS = ["sgp4", "sgp4beta", "kepler", "j2", "num_rk4", "cw", "ephem_interp", "frame_itrf", "frame_tod", "tle_write", "sun", "moon", "ccsds_opm"]
+OPS = ["sgp4", "sgp4beta", "kepler", "j2", "num_rk4", "cw", "ephem_interp", "frame_itrf", "frame_tod", "tle_write", "sun", "moon", "ccsds_opm",
+       "events", "frame_station", "ccsds_oem", "jpl_mars", "ephem_iter"]
 
 
 def _grid_ops(tier, rng):
-    """operations {sgp4, native sgp4, kepler, j2, numerical, cw, ephemeris interpolation, EME2000->ITRF, EME2000->TOD, TLE writing, Sun, Moon, CCSDS OPM}
+    """operations {sgp4, native sgp4, kepler, j2, numerical, cw, ephemeris interpolation, EME2000->ITRF, EME2000->TOD, TLE writing, Sun, Moon, CCSDS OPM, event
+    detection (node + apside over an iteration whose bounds carry the label), EME2000->station frame, CCSDS OEM, JPL body (Mars barycentre from the DE403 kernel), ephemeris iteration}
     x label of the argument date in 6 scales x label of the epoch in 6 scales x instants {mid-day, 1 h before midnight, (frames) 10 s after UTC midnight}"""
     for op in range(len(OPS)):
         for la in range(6):
@@ -380,6 +382,45 @@ def _(c):
         want = np.asarray(body.propagate(target).copy(frame="EME2000", form="cartesian"), dtype=float)
         got = np.asarray(body.propagate(target.change_scale(la)).copy(frame="EME2000", form="cartesian"), dtype=float)
         c.ensure("body_position", bool(np.linalg.norm(want[:3] - got[:3]) <= 1e-3 + 3e4 * 2e-6))
+    elif op == "events":
+        from beyond.propagators.listeners import NodeListener, ApsideListener
+        run = lambda o, a, b: [(e.event.info, e.date) for e in o.iter(start=a, stop=b, step=timedelta(seconds=180), listeners=[NodeListener(), ApsideListener()]) if e.event]
+        want = run(ref, d0, target)
+        got = run(relabel_orbit(ref, le), d0.change_scale(la), target.change_scale(la))
+        c.ensure("same_events_at_the_same_instants", len(want) > 0 and [x[0] for x in want] == [x[0] for x in got]
+                 and all(abs((a[1] - b[1]).total_seconds()) <= 1e-4 for a, b in zip(want, got)))
+    elif op == "frame_station":
+        from beyond.frames.stations import create_station
+        sta = create_station(f"C04STA", (43.6, 1.44, 150.0))
+        sv = StateVector(np.asarray(ref.copy(form="cartesian"), dtype=float), target, "cartesian", "EME2000")
+        want = np.asarray(sv.copy(frame=sta), dtype=float)
+        sv2 = StateVector(np.asarray(ref.copy(form="cartesian"), dtype=float), target.change_scale(la), "cartesian", "EME2000")
+        got = np.asarray(sv2.copy(frame=sta), dtype=float)
+        c.ensure("frame_conversion", close(want, got, v=500.0))
+    elif op == "ccsds_oem":
+        from beyond.io import ccsds
+        from beyond.orbits import Ephem
+        eph = ref.ephem(start=d0, stop=d0 + timedelta(seconds=600), step=timedelta(seconds=120))
+        eph2 = Ephem([relabel_orbit(o, la) for o in eph])
+        a, b = ccsds.loads(ccsds.dumps(eph)), ccsds.loads(ccsds.dumps(eph2))
+        c.ensure("ccsds_instants", len(a) == len(b) and all(abs((x.date - y.date).total_seconds()) <= 2e-6 and bool(np.allclose(np.asarray(x, dtype=float), np.asarray(y, dtype=float), rtol=0, atol=1e-3))
+                                                            for x, y in zip(a, b)))
+    elif op == "jpl_mars":
+        from contracts.c18_bodies import _cfg
+        from beyond.env import jpl
+        _cfg()
+        jpl.create_frames()
+        want = np.asarray(jpl.get_orbit("MarsBarycenter", target), dtype=float)
+        got = np.asarray(jpl.get_orbit("MarsBarycenter", target.change_scale(la)), dtype=float)
+        c.ensure("body_position", bool(np.linalg.norm(want[:3] - got[:3]) <= 1e-3 + 3e4 * 2e-6))
+    elif op == "ephem_iter":
+        eph = ref.ephem(start=d0, stop=d0 + timedelta(seconds=offs + 3000), step=timedelta(seconds=120))
+        from beyond.orbits import Ephem
+        eph2 = Ephem([relabel_orbit(o, le) for o in eph])
+        a0 = d0 + timedelta(seconds=100)
+        want = [pos(o) for o in eph.iter(start=a0, stop=a0 + timedelta(seconds=1000), step=timedelta(seconds=250))]
+        got = [pos(o) for o in eph2.iter(start=a0.change_scale(la), stop=(a0 + timedelta(seconds=1000)).change_scale(la), step=timedelta(seconds=250))]
+        c.ensure("iteration", len(want) == len(got) == 5 and all(close(x, y) for x, y in zip(want, got)))
     elif op == "ccsds_opm":
         from beyond.io import ccsds
         sv = ref.propagate(target)
